@@ -924,7 +924,10 @@ PROPS["C13"] = {
     "run": run_C13,
     "replay": replay_core,
     "partial": ["proved: no state beyond the cap and the exactness horizon 2n+1 for the 1-D model from the default initial state; "
-                "the n-D horizon, the pruning / partials-pruner / merging bounds are covered by the searches on the real code only; "
+                "merging preserves the value at x = 0 and moves each wavenumber by less than a cell (abstract fibre sums); pruning: exact "
+                "decomposition of the error into propagated removals, |dF0| <= 2 eps x (states removed so far) <= 2 eps x (cumulative "
+                "states) for any sequence of pulses / evolutions / shifts on any number of axes, and masks that keep everything are "
+                "exact (`C13Prune`). Searched only: the n-D horizon, the partials pruner, that the code's masks are the modelled ones; "
                 "tightness of the horizon (a difference at A = 2n+2) is exhibited numerically, not proved"],
 }
 
@@ -1101,7 +1104,7 @@ EXTRA_MODULES = {
     "C10": ["EpgVerif.Tie.ApplySites"],
     "C11": ["EpgVerif.Tie.SeqSites", "EpgVerif.Props.C11Run"],
     "C12": ["EpgVerif.Tie.SimSites", "EpgVerif.Tie.Modify"],
-    "C13": ["EpgVerif.Tie.ShiftSites"],
+    "C13": ["EpgVerif.Tie.ShiftSites", "EpgVerif.Props.C13Prune"],
     "C14": ["EpgVerif.Tie.ShiftSites", "EpgVerif.Props.C14Bound", "EpgVerif.Props.C14Parseval"],
     "C15": ["EpgVerif.Tie.PhysSites"],
     "C16": ["EpgVerif.Tie.CollSites"],
